@@ -93,9 +93,56 @@ def prim_table(repo: Repo) -> Dict[str, PrimVal]:
 class Num:
     """Numeric evaluation of expressions over an environment of access paths."""
 
-    def __init__(self, repo: Repo, mod: Module, prims: Dict[str, PrimVal]):
+    def __init__(self, repo: Repo, mod: Module, prims: Dict[str, PrimVal], inst: Optional[ClassInfo] = None):
         self.repo, self.mod, self.prims = repo, mod, prims
         self.cev = ConstEval(repo, mod)
+        self.inst = inst          # class whose `self.` / `cls.` members may be looked up
+        self._depth = 0
+
+    def _member(self, n: ast.Attribute, env):
+        """self.X / cls.X that is not in the environment: a class-level constant of the instance's class."""
+        if self.inst is None or not (isinstance(n.value, ast.Name) and n.value.id in ("self", "cls")):
+            raise Unknown(src(n))
+        for k in self.repo.mro(self.inst):
+            for st in k.node.body:
+                tgt = st.targets[0] if isinstance(st, ast.Assign) and len(st.targets) == 1 else \
+                    st.target if isinstance(st, ast.AnnAssign) else None
+                if isinstance(tgt, ast.Name) and tgt.id == n.attr and getattr(st, "value", None) is not None:
+                    sub = Num(self.repo, k.module, self.prims, self.inst)
+                    cenv = {}
+                    for st2 in k.node.body:          # earlier class-level constants
+                        if st2 is st:
+                            break
+                        if isinstance(st2, ast.Assign) and len(st2.targets) == 1 and isinstance(st2.targets[0], ast.Name):
+                            try:
+                                cenv[st2.targets[0].id] = sub.ev(st2.value, dict(cenv))
+                            except Unknown:
+                                pass
+                    return sub.ev(st.value, cenv)
+        raise Unknown(src(n))
+
+    def _method_call(self, n: ast.Call, env):
+        """self.m(...) / cls.m(...) where m is a single-expression method (property-like helper)."""
+        f = n.func
+        if self.inst is None or self._depth > 5 or not (isinstance(f, ast.Attribute) and isinstance(f.value, ast.Name)
+                                                          and f.value.id in ("self", "cls")):
+            raise Unknown(src(n))
+        m = self.repo.lookup_method(self.inst, f.attr)
+        if m is None or n.keywords or any(isinstance(a, ast.Starred) for a in n.args):
+            raise Unknown(src(n))
+        body = [b for b in m.node.body if not (isinstance(b, ast.Expr) and isinstance(b.value, ast.Constant))]
+        if len(body) != 1 or not isinstance(body[0], ast.Return) or body[0].value is None:
+            raise Unknown(src(n))
+        static = any((ap(d) or "").split(".")[-1] == "staticmethod" for d in m.node.decorator_list)
+        params = [a.arg for a in m.node.args.args][0 if static else 1:]
+        if len(n.args) > len(params):
+            raise Unknown(src(n))
+        sub = Num(self.repo, m.module, self.prims, self.inst)
+        sub._depth = self._depth + 1
+        env2 = {k: v for k, v in env.items() if "." in k}
+        for p_, a in zip(params, n.args):
+            env2[p_] = self.ev(a, env)
+        return sub.ev(body[0].value, env2)
 
     def _ser_alias(self, name: str) -> bool:
         tgt = self.mod.imports.get(name, "")
@@ -122,6 +169,9 @@ class Num:
                 return math.pi
             if isinstance(n.value, ast.Name) and self._ser_alias(n.value.id) and n.attr in self.prims:
                 return self.prims[n.attr]
+            if isinstance(n.value, ast.Name) and n.value.id in ("self", "cls") and n.value.id not in env \
+                    and self.inst is not None:
+                return self._member(n, env)
             try:
                 base = self.ev(n.value, env)
             except Unknown:
@@ -184,7 +234,7 @@ class Num:
                 raise Unknown(src(n))
             fn = _CALLS.get(name)
             if fn is None:
-                raise Unknown(src(n))
+                return self._method_call(n, env)
             args = [self.ev(a, env) for a in n.args]
             try:
                 return fn(*args)
@@ -295,7 +345,7 @@ class Construct:
         f = self._next_init(inst, None if first else after)
         if f is None:
             return
-        num = Num(self.repo, f.module, self.prims)
+        num = Num(self.repo, f.module, self.prims, inst)
         a = f.node.args
         params = [x.arg for x in a.args][1:]
         defaults = [None] * (len(params) - len(a.defaults)) + list(a.defaults)
@@ -405,6 +455,8 @@ def _t(n) -> str:
 
 def _clone(e: ast.AST) -> ast.AST:
     """Fresh copy of an expression (repo ASTs carry parent links, so deepcopy would drag the module along)."""
+    if isinstance(e, ast.Starred):
+        return ast.Starred(value=_clone(e.value), ctx=ast.Load())
     return ast.parse(ast.unparse(e), mode="eval").body
 
 
@@ -586,6 +638,17 @@ class _State:
                 return [Op("call", node=st, name="reassign")]
             if any(_mentions(t, v) for t in targets):
                 raise AnalysisError(f"C10: {self.f.qual}: store into a component of the tracked value: {norm(st)}")
+            # `new = f(value)` after which the old name is never used again: the value lives on under the new name
+            if st.value is not None and len(targets) == 1 and isinstance(targets[0], ast.Name) \
+                    and _mentions(st.value, v) and not self._used_after(st, v):
+                ops = self.expr(st.value)
+                self.v = targets[0].id
+                self.defs = {k: d for k, d in self.defs.items() if k != self.v}
+                return ops
+            return []
+        if isinstance(st, ast.AugAssign):
+            if _mentions(st.target, v):
+                raise AnalysisError(f"C10: {self.f.qual}: update of a component of the tracked value: {norm(st)}")
             return []
         if isinstance(st, ast.If):
             if not self._stores_v(st) and not any(isinstance(n, ast.Return) and n.value is not None and
@@ -597,12 +660,9 @@ class _State:
             if not self._stores_v(st) and self._degenerate_guard(st.test) and not st.orelse:
                 return []      # `if delta == 0: return <constant of the right shape>`
             if st.orelse or any(isinstance(n, (ast.Return,)) for n in walk(st)):
-                sub = _State(self.seq, self.f, v, self.defs, self.cond_locals, self.subst, self.depth)
-                inner_ops = sub.block(st.body)
-                if any(isinstance(n, ast.Return) for n in walk(st)) or st.orelse:
-                    if self._is_zero_median_test(st.test):
-                        return [Op("nudge", node=st)]
-                    return [Op("condassign", self.opnd(st.test), node=st)]
+                if self._is_zero_median_test(st.test):
+                    return [Op("nudge", node=st)]
+                return [Op("condassign", self.opnd(st.test), node=st)]
             sub = _State(self.seq, self.f, v, self.defs, self.cond_locals, self.subst, self.depth)
             inner = sub.block(st.body)
             if inner and all(o.kind in AFFINE for o in inner):
@@ -647,7 +707,26 @@ class _State:
         return None
 
     def _is_zero_median_test(self, t: ast.AST) -> bool:
-        return any(isinstance(n, ast.Attribute) and n.attr == "zero_median" for n in ast.walk(t))
+        """The test reads the zero_median switch: the attribute, or a parameter that an inlining call site bound
+        to it / that carries its name in a stateless helper."""
+        for n in ast.walk(t):
+            if isinstance(n, ast.Attribute) and n.attr == "zero_median":
+                return True
+            if isinstance(n, ast.Name):
+                bound = self.subst.get(n.id)
+                if bound is not None and any(isinstance(x, ast.Attribute) and x.attr == "zero_median"
+                                             for x in ast.walk(bound)):
+                    return True
+                if n.id == "zero_median":
+                    return True
+        return False
+
+    def _used_after(self, st: ast.stmt, name: str) -> bool:
+        end = (getattr(st, "end_lineno", st.lineno), getattr(st, "end_col_offset", 0))
+        for n in ast.walk(self.f.node):
+            if isinstance(n, ast.Name) and n.id == name and (n.lineno, n.col_offset) >= end:
+                return True
+        return False
 
     def _is_nudge_local(self, name: str) -> bool:
         """A multiply-assigned local with an assignment under a zero_median test."""
@@ -718,8 +797,10 @@ class _State:
             # self / super method taking the tracked value: inline
             callee = self._resolve_method(e)
             if callee is not None:
-                cparams = [a.arg for a in callee.node.args.args][1:]
-                if i < len(cparams) and len(e.args) <= len(cparams) and not e.keywords:
+                static = any((ap(d) or "").split(".")[-1] == "staticmethod" for d in callee.node.decorator_list)
+                cparams = [a.arg for a in callee.node.args.args][0 if static else 1:]
+                if i < len(cparams) and len(e.args) <= len(cparams) and not e.keywords \
+                        and not any(isinstance(a, ast.Starred) for a in e.args):
                     mapping = {p: self.opnd(a) for j, (p, a) in enumerate(zip(cparams, e.args)) if j != i}
                     inner_seq = OpSeq(self.seq.repo, self.seq.inst)
                     inner = inner_seq.of_method(callee, tracked=cparams[i], subst=mapping, depth=self.depth + 1)
@@ -732,7 +813,7 @@ class _State:
         if not isinstance(fn, ast.Attribute):
             return None
         repo = self.seq.repo
-        if isinstance(fn.value, ast.Name) and fn.value.id == "self":
+        if isinstance(fn.value, ast.Name) and fn.value.id in ("self", "cls"):
             return repo.lookup_method(self.seq.inst, fn.attr)
         if isinstance(fn.value, ast.Call) and ap(fn.value.func) == "super" and self.f.cls is not None:
             mro = repo.mro(self.seq.inst)
@@ -828,13 +909,44 @@ def _pairs(ctx) -> List[Tuple[ClassInfo, FuncInfo, FuncInfo, str]]:
     return out
 
 
+RAW_NAME = "__raw__"
+
+
+def _with_raw_source(f: FuncInfo) -> FuncInfo:
+    """A reader-side method has no value parameter: the value enters through the read call
+    (`spec.deserialize(reader, ctx)` / `reader.read(spec)`).  Returns a copy of the function in which that call
+    is replaced by the name __raw__, so that the value can be tracked from there (through locals and helpers)."""
+    from ..core import set_parents
+    src_text = ast.unparse(f.node)
+    tree = ast.parse(src_text)
+    fn = tree.body[0]
+    found = []
+
+    class T(ast.NodeTransformer):
+        def visit_Call(self, n):
+            self.generic_visit(n)
+            if isinstance(n.func, ast.Attribute) and n.func.attr in ("deserialize", "read", "read_bytes") \
+                    and any(isinstance(a, ast.Name) and a.id == "reader" for a in ast.walk(n)):
+                found.append(n)
+                return ast.copy_location(ast.Name(id=RAW_NAME, ctx=ast.Load()), n)
+            return n
+    fn = T().visit(fn)
+    if len(found) != 1:
+        raise AnalysisError(f"C10: {f.qual}: expected exactly one read of the raw value, found {len(found)}")
+    ast.fix_missing_locations(tree)
+    set_parents(tree)
+    # keep original line numbers for diagnostics
+    off = f.node.lineno - fn.lineno
+    for n in ast.walk(fn):
+        if hasattr(n, "lineno"):
+            n.lineno += off
+        if getattr(n, "end_lineno", None) is not None:
+            n.end_lineno += off
+    return FuncInfo(f.name, f.qual, f.module, fn, f.cls, f.parent_fn)
+
+
 def _tracked_for(f: FuncInfo, kind: str, side: str) -> Optional[str]:
-    if kind == "fp" and side == "dec":
-        rets = [n for n in walk(f.node) if isinstance(n, ast.Return) and isinstance(n.value, ast.Name)]
-        if len(rets) >= 1:
-            return rets[-1].value.id
-        raise AnalysisError(f"C10: {f.qual} does not return a tracked local")
-    return None
+    return RAW_NAME if kind == "fp" and side == "dec" else None
 
 
 def _expand_locals(f: FuncInfo, e: ast.AST) -> ast.AST:
@@ -866,7 +978,10 @@ def _expand_locals(f: FuncInfo, e: ast.AST) -> ast.AST:
         todo = {k: v for k, v in defs.items() if k in names}
         if not todo:
             break
-        e = _Subst(todo).visit(ast.Expression(body=e)).body
+        if isinstance(e, ast.Starred):
+            e = ast.Starred(value=_Subst(todo).visit(ast.Expression(body=e.value)).body, ctx=ast.Load())
+        else:
+            e = _Subst(todo).visit(ast.Expression(body=e)).body
     return e
 
 
@@ -930,7 +1045,7 @@ def r1(ctx, pairs, seqs):
         n += 1
         ok = len(ec) == 1 and len(dc) == 1 and \
             [_t(_expand_locals(encf, a)) for a in ec[0].args[1:]] == [_t(_expand_locals(decf, a)) for a in dc[0].args[1:]] \
-            and not ec[0].keywords and not dc[0].keywords and len(ec[0].args) == 3
+            and not ec[0].keywords and not dc[0].keywords and len(ec[0].args) >= 2
         owner = encf.cls.name if encf.cls == decf.cls else ci.name
         ctx.ob("C10.R1", f"{owner}: encode and decode pass the same (lower, upper)", ok, encf.where,
                f"encode calls {[norm(c) for c in ec]}, decode calls {[norm(c) for c in dc]}")
@@ -1728,6 +1843,142 @@ def r4(ctx):
     ctx.floor("C10.R4", "codec methods examined", n_fn, 8)
     ctx.floor("C10.R4", "array-valued codec parameters", n_arr, 2)
 
+
+# ------------------------------------------------------------------------------------------ R1 (adapters around quantisers) / R5 (no value-dependent skips)
+
+_ARITH_OPS = (ast.Add, ast.Sub, ast.Mult, ast.Div, ast.FloorDiv, ast.Mod, ast.Pow)
+
+
+def _has_arithmetic(fn_node) -> bool:
+    for n in walk(fn_node, into_defs=True):
+        if isinstance(n, ast.BinOp) and isinstance(n.op, _ARITH_OPS):
+            return True
+        if isinstance(n, ast.AugAssign) and isinstance(n.op, _ARITH_OPS):
+            return True
+        if isinstance(n, ast.Call) and (ap(n.func) or "").startswith(("math.", "np.", "numpy.")):
+            return True
+    return False
+
+
+def r1_adapters(ctx):
+    """Adapters that wrap a quantised / fixed-point codec (PackedQuat(Vector4U16(..)), VecListAdapter(QuantizedNumPy
+    Array(..))) sit between the exact decoder and its inverse: whatever they do to the numbers on one side is not
+    undone by the quantiser on the other, so they may only re-shape (construct, project, convert containers)."""
+    repo = ctx.repo
+    wrappers: Dict[ClassInfo, ast.AST] = {}
+    for mod in repo.modules.values():
+        for c in calls(mod.tree, into_defs=True):
+            k = _resolve_cls(repo, mod, c.func)
+            if k is None or not _is_sub(repo, k, "Adapter") or _in_family(repo, k):
+                continue
+            for a in list(c.args) + [kw_.value for kw_ in c.keywords]:
+                if isinstance(a, ast.Call):
+                    inner = _resolve_cls(repo, mod, a.func)
+                    if inner is not None and (_in_family(repo, inner) or _is_sub(repo, inner, "QuantizedTupleCoord")
+                                              or _is_sub(repo, inner, "FixedPointTupleCoord")):
+                        wrappers.setdefault(k, c)
+    ctx.stats["C10.R1.adapters around quantisers"] = sorted(k.name for k in wrappers)
+    for k in sorted(wrappers, key=lambda c: c.qual):
+        for meth in ("encode", "decode"):
+            f = repo.lookup_method(k, meth)
+            if f is None or f.cls is None or f.cls.name == "Adapter":
+                continue
+            params = [a.arg for a in f.node.args.args]
+            if len(params) < 2:
+                continue
+            derived = _derived_names(f, {params[1]}, from_reads=False)
+            problems = []
+            for n in walk(f.node, into_defs=True):
+                if isinstance(n, ast.BinOp) and isinstance(n.op, _ARITH_OPS) and \
+                        any(isinstance(x, ast.Name) and x.id in derived for x in (n.left, n.right)):
+                    problems.append((n, f"`{norm(n)}` computes on the value"))
+                elif isinstance(n, ast.UnaryOp) and isinstance(n.op, ast.USub) and isinstance(n.operand, ast.Name) \
+                        and n.operand.id in derived:
+                    problems.append((n, f"`{norm(n)}` negates the value"))
+                elif isinstance(n, ast.AugAssign) and isinstance(n.op, _ARITH_OPS) and isinstance(n.target, ast.Name) \
+                        and n.target.id in derived:
+                    problems.append((n, f"`{norm(n)}` updates the value"))
+                elif isinstance(n, ast.Call) and isinstance(n.func, ast.Attribute) and isinstance(n.func.value, ast.Name) \
+                        and n.func.value.id in derived:
+                    # a method of the value itself: arithmetic inside it (normalise, scale, conjugate ...) counts
+                    cands = [g for g in repo.funcs.get(n.func.attr, []) if g.cls is not None]
+                    if cands and any(_has_arithmetic(g.node) for g in cands):
+                        problems.append((n, f"`{norm(n)}` calls a method that does arithmetic on the value "
+                                            f"({', '.join(sorted({g.qual for g in cands if _has_arithmetic(g.node)})[:3])})"))
+                elif isinstance(n, ast.Call) and ((ap(n.func) or "") in _NUMERIC_FUNCS or
+                                                  (ap(n.func) or "").startswith(("math.", "np.", "numpy."))) \
+                        and any(isinstance(a, ast.Name) and a.id in derived for a in n.args):
+                    problems.append((n, f"`{norm(n)}` transforms the value"))
+            ctx.ob("C10.R1", f"{k.name}.{meth}: adapter around a quantised codec only re-shapes the value", not problems,
+                   ctx.w(f, problems[0][0]) if problems else f.where,
+                   (problems[0][1] if problems else "") + ": the quantiser below is exact only on the numbers it decoded "
+                   "itself; components changed here (normalised, sign-flipped, rescaled) re-encode to different raws")
+
+
+def r5(ctx):
+    """A hand-quantising writer (round()/rint() of a scaled element) writes every element it is given: skipping an
+    element because of its (quantised) value makes that value unrepresentable - the reader cannot put it back."""
+    repo = ctx.repo
+    ctx.rule("C10.R5", "hand-quantising writers do not drop elements depending on their value (no continue / filter "
+                       "on a name derived from the loop element)")
+    n = 0
+    for f in repo.all_funcs:
+        if f.parent_fn is not None or f.name not in ("serialize", "encode") or \
+                not f.module.rel.startswith("hippolyzer/lib/base/"):
+            continue
+        rounds = [c for c in calls(f.node, into_defs=True)
+                  if (ap(c.func) or "") in ("round", "np.rint", "numpy.rint", "int") and c.args
+                  and any(isinstance(x, ast.BinOp) and isinstance(x.op, (ast.Mult, ast.Div)) for x in ast.walk(c.args[0]))]
+        if not rounds:
+            # quantisation moved into a helper of the class: follow one level of cls./self. calls
+            helper = False
+            for c in calls(f.node, into_defs=True):
+                if isinstance(c.func, ast.Attribute) and isinstance(c.func.value, ast.Name) and c.func.value.id in ("self", "cls") \
+                        and f.cls is not None:
+                    m = repo.lookup_method(f.cls, c.func.attr)
+                    if m is not None and any((ap(x.func) or "") in ("round", "np.rint", "numpy.rint") for x in calls(m.node)) \
+                            and _has_arithmetic(m.node):
+                        helper = True
+            if not helper:
+                continue
+        loops = [l for l in walk(f.node, into_defs=True) if isinstance(l, (ast.For, ast.AsyncFor))]
+        if not loops:
+            continue
+        n += 1
+        problems = []
+        for l in loops:
+            derived = {x.id for x in ast.walk(l.target) if isinstance(x, ast.Name)}
+            for _ in range(5):
+                before = len(derived)
+                for st in walk(l, into_defs=True):
+                    if isinstance(st, ast.Assign) and any(isinstance(x, ast.Name) and x.id in derived for x in ast.walk(st.value)):
+                        for t in st.targets:
+                            derived |= {x.id for x in ast.walk(t) if isinstance(x, ast.Name)}
+                if len(derived) == before:
+                    break
+            for st in walk(l, into_defs=True):
+                if isinstance(st, (ast.Continue, ast.Break)):
+                    from ..core import facts as _facts
+                    for e, pol in _facts(st, l):
+                        if any(isinstance(x, ast.Name) and x.id in derived for x in ast.walk(e)):
+                            problems.append((st, f"`{type(st).__name__.lower()}` under `{norm(e)}`"))
+                            break
+        for comp in [c for c in walk(f.node, into_defs=True) if isinstance(c, (ast.ListComp, ast.GeneratorExp, ast.SetComp))]:
+            for g in comp.generators:
+                tnames = {x.id for x in ast.walk(g.target) if isinstance(x, ast.Name)}
+                for cond in g.ifs:
+                    if any(isinstance(x, ast.Name) and x.id in tnames for x in ast.walk(cond)) and \
+                            any(isinstance(x, (ast.BinOp, ast.Call)) for x in ast.walk(cond)):
+                        problems.append((cond, f"comprehension filter `{norm(cond)}`"))
+        ctx.ob("C10.R5", f"{f.qual}: every element handed to the quantising writer is written", not problems,
+               ctx.w(f, problems[0][0]) if problems else f.where,
+               (problems[0][1] if problems else "") + " drops an element depending on its value: that value (e.g. a "
+               "weight that quantises to 0) no longer encodes back to the raw it came from")
+    ctx.stats["C10.R5.hand-quantising writers with loops"] = n
+    if n == 0:
+        ctx.note("C10.R5: no hand-quantising writer with an element loop found; nothing to check")
+        ctx.ob("C10.R5", "no hand-quantising element loop in the codec modules", True, "hippolyzer/lib/base")
+
 # ------------------------------------------------------------------------------------------ driver
 
 def run(ctx):
@@ -1738,13 +1989,16 @@ def run(ctx):
     seqs = {}
     for ci, d, e, kind in pairs:
         seq = OpSeq(repo, ci)
-        dec = seq.of_method(d, tracked=_tracked_for(d, kind, "dec"))
+        dsrc = _with_raw_source(d) if kind == "fp" else d
+        dec = seq.of_method(dsrc, tracked=_tracked_for(d, kind, "dec"))
         enc = OpSeq(repo, ci).of_method(e, tracked=None)
         seqs[ci] = (dec, enc)
         ctx.stats[f"C10.ops.{ci.name}"] = {"decode": _fmt(dec), "encode": _fmt(enc)}
     r1(ctx, pairs, seqs)
     r1_wrappers(ctx)
+    r1_adapters(ctx)
     r2_r3(ctx, pairs, seqs, prims)
     r4(ctx)
+    r5(ctx)
     ctx.assume("bit-exact encode(decode(raw)) == raw over all raws, IEEE rounding and monotonicity in float "
                "arithmetic are not decided; instance checks use real-arithmetic reasoning with a 1e-9 tolerance")
